@@ -116,10 +116,13 @@ var c09Deny = map[string]string{
 type c09Fn struct {
 	Pkg  string
 	Name string
-	Head string // text used in the operator position
-	Kind string // "", macro, function, generic-function …
-	Doc  int    // number of documented parameters
-	Max  int    // documented maximum number of arguments, -1 = no maximum (&rest, &body, &key)
+	Head string   // text used in the operator position
+	Kind string   // "", macro, function, generic-function …
+	Doc  int      // number of documented parameters
+	Max  int      // documented maximum number of arguments, -1 = no maximum (&rest, &body, &key)
+	Req  int      // documented required parameters (before the first lambda list keyword)
+	Opt  int      // documented &optional parameters
+	Keys []string // documented &key parameter names (without the colon)
 	skip func(i int) bool
 }
 
@@ -140,7 +143,18 @@ func c09Functions() (fns []*c09Fn, denied []string) {
 			if fi.Doc != nil {
 				f.Kind = string(fi.Doc.Kind)
 				f.Doc = len(fi.Doc.Args)
+				section := ""
 				for _, da := range fi.Doc.Args {
+					switch {
+					case strings.HasPrefix(da.Name, "&"):
+						section = da.Name
+					case section == "":
+						f.Req++
+					case section == slip.AmpOptional:
+						f.Opt++
+					case section == slip.AmpKey:
+						f.Keys = append(f.Keys, strings.TrimPrefix(da.Name, ":"))
+					}
 					switch {
 					case da.Name == slip.AmpRest || da.Name == slip.AmpBody || da.Name == slip.AmpKey || da.Name == slip.AmpAllowOtherKeys:
 						f.Max = -1
